@@ -12,6 +12,7 @@ From SV Require Import Model.Tiling.
 From SV Require Import Model.Validate.
 From SV Require Import Model.PtSolution.
 From SV Require Import Model.Kang.
+From SV Require Import Model.Visibility.
 Require Extraction.
 From Coq Require Import ExtrOcamlBasic.
 Extraction Language OCaml.
@@ -22,4 +23,6 @@ Extraction "model.ml"
   from_scattering from_directional rot rotT wall_dirs create_patches total_number_of_patches
   tiling_defined process kang_patches patch_center patch_area construct sphere_tangent on_sphere
   angle_at angle_sum excess poly_area pt_solution s2p_energy s2p_dist p2r_factor kang_ffs
-  kang_run kang_resp kN kdelay0 ke0 kinit_with korders_from kpdist kdelay kff_offset.
+  kang_run kang_resp kN kdelay0 ke0 kinit_with korders_from kpdist kdelay kff_offset
+  project_to_plane rotation_matrix rotation_to_z mvec point_in_polygon basic_visibility
+  visible_all check_point2patch check_patch2patch.
